@@ -1,17 +1,208 @@
 /-
 C08 — every documented key spelling, alias or path reaches its field, both ways.
-Property theorems only (helper lemmas live in DW/Lemmas).
+Property theorems only (helper lemmas live in DW/Lemmas/C08*.lean).
+
+  (a) path syntax   : parse/print round trip of `split_object_path` over a token grammar, state reset between components
+  (b) alias on load : v1 ordered lookup — the first listed alias present wins, independent of the document's key order
+                      (default engine: a witness that it *does* depend on the document order there)
+  (c) dump targets  : dump=False / skip=True beat all=True; the first listed alias is the dump key
+  (d) casings       : snake -> camel / Pascal / kebab -> snake round trips on canonical names
 -/
 import DW.Generated.Tables
 import DW.Model.Strings
 import DW.Model.ObjPath
+import DW.Model.Alias
+import DW.Lemmas.C08
+import DW.Lemmas.C08Path
+import DW.Lemmas.C08Case
 
 namespace DW.Props.C08
-open DW.Str DW.ObjPath
+open DW.Str DW.ObjPath DW.Alias DW.C08 DW.C08Path DW.C08Case
 
 /-- The tokenizer's literal tables in the source are the ones the model hard-codes. -/
 theorem C08_path_tables :
     DW.Generated.pathTruthy = ["True", "true"] ∧ DW.Generated.pathFalsy = ["False", "false"]
     ∧ DW.Generated.pathStartSep = [".", "["] := by decide
+
+/-! ### (a) path syntax -/
+
+/-- Parse/print round trip: for every list of well-formed tokens — bare identifiers, `true`/`false` in both
+capitalisations, (negative) decimal integers, quoted strings with either quote character that may contain dots,
+brackets, the other quote and the (escaped) quote itself — each rendered as `.body` or `[body]`, the tokenizer returns
+exactly the keys / indexes the tokens denote. Proved by induction over the token list with a tokenizer-state invariant
+(`DW.C08Path.Ready`): every flag, in particular `parsed_string_literal`, is back to its initial value at each separator. -/
+theorem C08_path_parse_print (toks : List PTok) (h : ∀ t ∈ toks, t.tok.WF) :
+    splitObjectPath (render toks) = toks.map (fun t => t.tok.denote) :=
+  split_render toks h
+
+/-- State reset: a bare `true` / `false` (`True` / `False`) component is emitted as a bool key whatever components
+precede it — quoted ones included. -/
+theorem C08_bool_after_any_components (pre : List PTok) (h : ∀ t ∈ pre, t.tok.WF) (b cap br : Bool) :
+    splitObjectPath (render (pre ++ [⟨.bool b cap, br⟩])) = pre.map (fun t => t.tok.denote) ++ [.bool b] :=
+  bool_after_any pre h b cap br
+
+/-- State reset: a bare integer component is emitted as an int index whatever components precede it. -/
+theorem C08_int_after_any_components (pre : List PTok) (h : ∀ t ∈ pre, t.tok.WF) (neg : Bool) (ds : S)
+    (hw : (Tok.int neg ds).WF) (br : Bool) :
+    splitObjectPath (render (pre ++ [⟨.int neg ds, br⟩]))
+      = pre.map (fun t => t.tok.denote) ++ [(Tok.int neg ds).denote] :=
+  int_after_any pre h neg ds hw br
+
+/-- Quotes turn a reserved word into a string key: `"true"` is the key `'true'`, not `True`. -/
+theorem C08_quoted_true_is_string :
+    splitObjectPath (render [⟨.quoted '"' "true".toList, false⟩]) = [.str "true".toList] :=
+  quoted_true_is_string
+
+/-! ### (b) aliases on load -/
+
+/-- v1: when several listed aliases are present the FIRST listed one wins: if no alias listed before `a` is in the
+document and `a` is, the lookup returns the value stored under `a` (induction over the alias list). -/
+theorem C08_v1_first_listed_alias_wins (get : Key → Option Doc) (pre : List S) (a : S) (post : List S) (v : Doc)
+    (hpre : ∀ b ∈ pre, get (.str b) = none) (ha : get (.str a) = some v) :
+    findAlias get (pre ++ a :: post) = some v :=
+  findAlias_first get pre a post v hpre ha
+
+/-- v1: a field none of whose listed aliases is in the document is not found (it then takes its default or is
+reported missing) — its own name is not consulted. -/
+theorem C08_v1_no_listed_alias_present (get : Key → Option Doc) (as : List S)
+    (h : ∀ b ∈ as, get (.str b) = none) : findAlias get as = none :=
+  findAlias_none get as h
+
+/-- A dict lookup does not depend on the order in which the document lists its keys (keys pairwise distinct, as in
+every real `dict`). -/
+theorem C08_lookup_independent_of_key_order {kvs kvs' : List (Key × Doc)} (hp : kvs.Perm kvs')
+    (hd : KeysDistinct kvs) (k : Key) : objGet kvs k = objGet kvs' k :=
+  objGet_perm hp hd k
+
+/-- v1: the whole load result is independent of the order of the keys in the document — for every class model
+(aliases, paths, key case, AUTO, Meta mapping) whose paths are non-empty. -/
+theorem C08_v1_load_independent_of_key_order (c : ClassSpec) {kvs kvs' : List (Key × Doc)} (hp : kvs.Perm kvs')
+    (hd : KeysDistinct kvs) (hpaths : ∀ f ∈ c.fields, ∀ p ∈ f.paths, p ≠ []) :
+    loadV1 c (.obj kvs) = loadV1 c (.obj kvs') := by
+  have hget : ∀ k, objGet kvs k = objGet kvs' k := fun k => objGet_perm hp hd k
+  have hfun : objGet kvs = objGet kvs' := funext hget
+  unfold loadV1
+  apply mapM_option_congr
+  intro f hf
+  have hv : v1FieldValue c (.obj kvs) (objGet kvs) f = v1FieldValue c (.obj kvs') (objGet kvs') f := by
+    unfold v1FieldValue
+    rw [hfun]
+    cases hA : loadAliasesOf c f with
+    | some as => rfl
+    | none =>
+      cases hP : loadPathsOf f with
+      | none => rfl
+      | some ps =>
+        have hps : ∀ p ∈ ps, p ≠ [] := by
+          intro p hpmem
+          apply hpaths f hf p
+          unfold loadPathsOf at hP
+          split at hP
+          · split at hP
+            · exact absurd hP (by simp)
+            · cases hP; exact hpmem
+          · exact absurd hP (by simp)
+        simp only
+        rw [findPath_congr hget _ ps hps]
+  rw [hv]
+
+/-- Default engine: the generated `cls_fromdict` walks the DOCUMENT's keys, so with two aliases of one field present
+the one that comes last in the document wins — the result depends on the document's key order (the property restricts
+"first listed wins" to v1 for this reason). -/
+theorem C08_default_multi_alias_order_dependent_witness :
+    let c : ClassSpec := { v1 := false, fields := [{ name := ['x'], form := .jsonField, keys := [['a'], ['b']] }] }
+    loadDefault c false (.obj [(.str ['a'], .val 1), (.str ['b'], .val 2)]) = some [(['x'], 2)]
+    ∧ loadDefault c false (.obj [(.str ['b'], .val 2), (.str ['a'], .val 1)]) = some [(['x'], 1)] := by
+  decide
+
+/-! ### (c) dump targets -/
+
+/-- Default engine: `dump=False` wins over `all=True` — a `json_field` / `Annotated[.., json_key]` / `path_field` /
+`Annotated[.., KeyPath]` / `field(metadata={'__remapping__': ..})` field with dump=False is written nowhere, whatever
+`all`, the class-level mapping, the key transform and the set-up order are (all five documented forms, the metadata form
+since repair d820e9b). -/
+theorem C08_dump_false_wins_over_all (c : ClassSpec) (dumpFirst : Bool) (f : FieldSpec)
+    (hform : f.form = .jsonField ∨ f.form = .annKey ∨ f.form = .pathField ∨ f.form = .annPath ∨ f.form = .metaKey)
+    (hd : f.dump = false) : dumpTarget c dumpFirst f = .nowhere := by
+  rcases hform with h | h | h | h | h <;> simp [dumpTarget, fieldDumpSetting, h, hd]
+
+/-- v1: `skip=True` wins — an `Alias(..)` / `AliasPath(..)` field with skip=True is written nowhere, whatever aliases,
+dump alias or paths it lists. -/
+theorem C08_skip_wins (c : ClassSpec) (dumpFirst : Bool) (f : FieldSpec)
+    (hform : f.form = .aliasAll ∨ f.form = .aliasLd ∨ f.form = .aliasPath)
+    (hs : f.skip = true) : dumpTarget c dumpFirst f = .nowhere := by
+  rcases hform with h | h | h <;> simp [dumpTarget, fieldDumpSetting, h, hs]
+
+/-- the case repaired by d820e9b: `field(metadata={'__remapping__': json_key('X', all=True, dump=False)})` is written
+nowhere (before the repair the dump set-up looked at `all` only and wrote the field under `X`). -/
+theorem C08_dump_false_metadata_form_repaired :
+    dumpTarget { v1 := false, fields := [] } false
+      { name := ['x'], form := .metaKey, keys := [['X']], all := true, dump := false } = .nowhere := by
+  decide
+
+/-- since repair 5af972b the path table the generated load function sees does not depend on whether the class was dumped
+before its first load -/
+theorem C08_load_paths_independent_of_first_op (c : ClassSpec) :
+    pathTableAtLoad c true = pathTableAtLoad c false := rfl
+
+/-- When the mapping is marked for both directions the FIRST listed alias is the dump key (default engine
+`all=True`; v1 `Alias(a, ...)`), literally. -/
+theorem C08_dump_first_listed_alias (c : ClassSpec) (dumpFirst : Bool) (f : FieldSpec) (a : S) (rest : List S)
+    (ha : a ≠ []) (hk : f.keys = a :: rest)
+    (hform : ((f.form = .jsonField ∨ f.form = .annKey) ∧ f.dump = true ∧ f.all = true)
+      ∨ (f.form = .aliasAll ∧ f.skip = false)) :
+    dumpTarget c dumpFirst f = .key a := by
+  cases a with
+  | nil => exact absurd rfl ha
+  | cons x xs =>
+    rcases hform with ⟨h | h, hd, hall⟩ | ⟨h, hs⟩ <;> simp [dumpTarget, fieldDumpSetting, *]
+
+/-! ### (d) casings -/
+
+/-- kebab-case: for every canonical snake_case name (lower-case letters / digits, single underscores between
+non-empty words, first character a letter) `to_snake_case(to_lisp_case(n)) = n`, and `to_lisp_case(n)` is the name
+with `-` for `_`. -/
+theorem C08_lisp_roundtrip {ws : List S} (h : CanonWords ws) :
+    toSnake (toLisp (joinWords ws)) = joinWords ws ∧ toLisp (joinWords ws) = joinSep '-' ws :=
+  ⟨lisp_roundtrip h, lisp_of_canon h⟩
+
+/-- `to_snake_case` is the identity on canonical snake_case names. -/
+theorem C08_snake_idempotent {ws : List S} (h : CanonWords ws) : toSnake (joinWords ws) = joinWords ws :=
+  snake_idem h
+
+/-- The full statement "toSnake (toCamel n) = n for every canonical name" is FALSE: `a_b_c ↦ aBC ↦ a_bc`
+(a one-letter word followed by a word whose second character is not a lower-case letter). The name is canonical. -/
+theorem C08_camel_roundtrip_witness :
+    CanonWords ["a".toList, "b".toList, "c".toList]
+    ∧ toCamel "a_b_c".toList = some "aBC".toList ∧ toSnake "aBC".toList = "a_bc".toList :=
+  ⟨camel_witness_canon.1, camel_roundtrip_witness⟩
+
+/-- Likewise for PascalCase: `a_b1 ↦ AB1 ↦ ab1`. -/
+theorem C08_pascal_roundtrip_witness :
+    CanonWords ["a".toList, "b1".toList]
+    ∧ toPascal "a_b1".toList = some "AB1".toList ∧ toSnake "AB1".toList = "ab1".toList :=
+  ⟨pascal_witness_canon.1, pascal_roundtrip_witness⟩
+
+/-- camelCase round trip under the explicit hypothesis `CamelSafe` (canonical; every word after the first starts with
+a letter; a one-letter word after the first is last or followed by a word whose second character is a lower-case
+letter). On small universes `CamelSafe` is exactly the set of canonical names with the round trip
+(`DW.C08Case.safe_classes_exact_small`). -/
+theorem C08_camel_roundtrip_partial {ws : List S} (h : CamelSafe ws) :
+    ∃ c, toCamel (joinWords ws) = some c ∧ toSnake c = joinWords ws :=
+  camel_roundtrip h
+
+/-- PascalCase round trip under `PascalSafe` (as `CamelSafe`, the first word taking part in the one-letter rule). -/
+theorem C08_pascal_roundtrip_partial {ws : List S} (h : PascalSafe ws) :
+    ∃ c, toPascal (joinWords ws) = some c ∧ toSnake c = joinWords ws :=
+  pascal_roundtrip h
+
+/-- The property's own name class — words of at least two characters `[a-z][a-z0-9]+`, which contains
+`[a-z]{2,}[0-9]*` — has all three round trips. -/
+theorem C08_casing_roundtrips_property_class {ws : List S} (hne : ws ≠ [])
+    (h : ∀ w ∈ ws, wordOk w = true ∧ startsLower w = true ∧ 2 ≤ w.length) :
+    toSnake (toLisp (joinWords ws)) = joinWords ws
+    ∧ (∃ c, toCamel (joinWords ws) = some c ∧ toSnake c = joinWords ws)
+    ∧ (∃ c, toPascal (joinWords ws) = some c ∧ toSnake c = joinWords ws) :=
+  roundtrips_property_class hne h
 
 end DW.Props.C08
